@@ -27,6 +27,8 @@ import (
 	"sync"
 	"sync/atomic"
 	"time"
+
+	syscall "golang.org/x/sys/unix"
 )
 
 // Session is used to wrap a reliable ordered connection and to
@@ -162,6 +164,8 @@ func newSession(config *Config, conn net.Conn, isClient bool) (*Session, error) 
 		if s.bufferManager != nil {
 			addGlobalBufferManagerRefCount(s.bufferManager.path, -1)
 		}
+		// the initializer goroutine has finished (see initProtocol): nobody uses the dup'ed fd anymore
+		fd.Close()
 		return nil, err
 	}
 
@@ -192,7 +196,9 @@ func (s *Session) initProtocol() error {
 	timeout := time.NewTimer(s.config.InitializeTimeout)
 	defer timeout.Stop()
 
+	doneCh := make(chan struct{})
 	go func() {
+		defer close(doneCh)
 		// initializing protocol , maybe block
 		protoAdaptor := newProtocolAdaptor(s)
 		initializer, err := protoAdaptor.getProtocolInitializer()
@@ -213,6 +219,11 @@ func (s *Session) initProtocol() error {
 	case err := <-resultCh:
 		return err
 	case <-timeout.C:
+		// The initializer goroutine may be blocked in a raw read on connFd. close(2) would not wake it,
+		// shutdown(2) does: its pending and later IO fails, it returns, and only then is it safe to
+		// release the share memory and the fd (otherwise it could still map memory nobody would unmap).
+		_ = syscall.Shutdown(s.connFd, syscall.SHUT_RDWR)
+		<-doneCh
 		return fmt.Errorf("protocolInitializer init timeout:%d ms",
 			s.config.InitializeTimeout/time.Millisecond)
 	}
